@@ -267,4 +267,135 @@ theorem flagExtreme_wf (r : Except Panic (Option PT)) (x : Option PT) (hr : ∀ 
   · exact hr x h
 
 
+/-! ### canonical form -/
+
+theorem renderPTCanon_unfold (t : PT) : renderPTCanon (some t) =
+    "{\"Ok\":{\"extreme\":" ++ (if t.extreme then "true" else "false") ++ ",\"time\":\"" ++
+      pad2 t.time.h ++ ":" ++ pad2 t.time.m ++ ":" ++ pad2 t.time.s ++ "\"}}" := rfl
+
+theorem renderPTCanon_toList (t : PT) :
+    (renderPTCanon (some t)).toList = "{\"Ok\":{\"extreme\":".toList ++
+      ((if t.extreme then "true" else "false" : String).toList ++ (",\"time\":\"".toList ++
+      ((pad2 t.time.h).toList ++ (":".toList ++ ((pad2 t.time.m).toList ++
+      (":".toList ++ ((pad2 t.time.s).toList ++ "\"}}".toList))))))) := by
+  rw [renderPTCanon_unfold]
+  simp only [String.toList_append, List.append_assoc]
+
+theorem decodePTCanon_render (x : Option PT) (h : PTwf x) (r : List Char) :
+    decodePTCanon ((renderPTCanon x).toList ++ r) = some (x, r) := by
+  cases x with
+  | none =>
+    have e : renderPTCanon none = "{\"Err\":null}" := rfl
+    rw [e]
+    unfold decodePTCanon
+    rw [strip_append]
+  | some t =>
+    obtain ⟨hh, hm, hs⟩ := h
+    have ne : stripPrefix? "{\"Err\":null}".toList ((renderPTCanon (some t)).toList ++ r) = none := by
+      rw [renderPTCanon_toList]
+      have a : "{\"Err\":null}".toList = ['{','"','E','r','r','"',':','n','u','l','l','}'] := by decide
+      have b : "{\"Ok\":{\"extreme\":".toList = ['{','"','O','k','"',':','{','"','e','x','t','r','e','m','e','"',':'] := by decide
+      rw [a, b]; simp [stripPrefix?]
+    unfold decodePTCanon
+    rw [ne]
+    simp only [renderPTCanon_toList, List.append_assoc, strip_append, decodeBool_render, takeNum_pad2 _ hh]
+    rw [colon]
+    simp only [strip_append, takeNum_pad2 _ hm, takeNum_pad2 _ hs]
+
+theorem decodeMemberCanon_render (key : String) (x : Option PT) (h : PTwf x) (r : List Char) :
+    decodeMemberCanon key (key.toList ++ ((renderPTCanon x).toList ++ r)) = some (x, r) := by
+  simp only [decodeMemberCanon, strip_append, decodePTCanon_render x h r]
+
+theorem renderDayCanon_unfold (d : DayTimes) : renderDayCanon d =
+  "{\"Asr\":" ++ renderPTCanon d.asr ++ ",\"Dhuhr\":" ++ renderPTCanon d.dhuhr ++ ",\"Fajr\":" ++ renderPTCanon d.fajr ++
+  ",\"Imsaak\":" ++ renderPTCanon d.imsaak ++ ",\"Isha\":" ++ renderPTCanon d.isha ++ ",\"Maghrib\":" ++ renderPTCanon d.magh ++
+  ",\"Shurooq\":" ++ renderPTCanon d.shur ++ "}" := rfl
+
+theorem decodeDayCanon_render (d : DayTimes) (h : DayWf d) (r : List Char) :
+    decodeDayCanon ((renderDayCanon d).toList ++ r) = some (d, r) := by
+  obtain ⟨h1, h2, h3, h4, h5, h6, h7⟩ := h
+  rw [renderDayCanon_unfold]
+  simp only [String.toList_append, List.append_assoc]
+  unfold decodeDayCanon
+  simp only [decodeMemberCanon_render _ _ h1, decodeMemberCanon_render _ _ h2, decodeMemberCanon_render _ _ h3,
+    decodeMemberCanon_render _ _ h4, decodeMemberCanon_render _ _ h5, decodeMemberCanon_render _ _ h6,
+    decodeMemberCanon_render _ _ h7]
+  rw [rbrace]
+  simp only [strip_append]
+
+def entryCanonL (e : Int × DayTimes) : List Char :=
+  '"' :: ((isoDate e.1).toList ++ ('"' :: ':' :: (renderDayCanon e.2).toList))
+
+theorem decodeEntryCanon_render (e : Int × DayTimes) (h : EntryWf e) (r : List Char) :
+    decodeEntryCanon (entryCanonL e ++ r) = some (e, r) := by
+  have x : entryCanonL e ++ r = '"' :: ((isoDate e.1).toList ++ ('"' :: (':' :: ((renderDayCanon e.2).toList ++ r)))) := by
+    simp [entryCanonL]
+  rw [x]
+  unfold decodeEntryCanon
+  rw [decodeDate_render e.1 h.1]
+  simp only [stripPrefix?, if_true, decodeDayCanon_render e.2 h.2]
+
+theorem decodeEntriesCanon_render (es : List (Int × DayTimes)) (hne : es ≠ []) (h : ∀ e ∈ es, EntryWf e)
+    (r : List Char) (hr : ∀ q, r ≠ ',' :: q) (fuel : Nat) (hf : es.length ≤ fuel) :
+    decodeEntriesCanon fuel ([','].intercalate (es.map entryCanonL) ++ r) = some (es, r) := by
+  induction es generalizing fuel with
+  | nil => exact absurd rfl hne
+  | cons e rest ih =>
+    cases fuel with
+    | zero => simp at hf
+    | succ fuel =>
+      cases rest with
+      | nil =>
+        simp only [List.map_cons, List.map_nil, List.intercalate_singleton]
+        unfold decodeEntriesCanon
+        rw [decodeEntryCanon_render e (h e (by simp))]
+        cases r with
+        | nil => rfl
+        | cons c q =>
+          by_cases hc : c = ','
+          · subst hc; exact absurd rfl (hr q)
+          · dsimp only
+            split
+            · rename_i heq; simp only [List.cons.injEq] at heq; exact absurd heq.1 hc
+            · rfl
+      | cons e2 rest2 =>
+        have hi : [','].intercalate ((e :: e2 :: rest2).map entryCanonL) ++ r =
+            entryCanonL e ++ (',' :: ([','].intercalate ((e2 :: rest2).map entryCanonL) ++ r)) := by
+          simp [List.intercalate_cons_cons]
+        rw [hi]
+        unfold decodeEntriesCanon
+        rw [decodeEntryCanon_render e (h e (by simp))]
+        simp only
+        rw [ih (by simp) (fun x hx => h x (by simp [hx])) fuel (by simp at hf ⊢; omega)]
+
+theorem renderRangeCanon_unfold (days : List (Int × DayTimes)) : renderRangeCanon days =
+    "{" ++ ",".intercalate (days.map fun (rd, d) => "\"" ++ isoDate rd ++ "\":" ++ renderDayCanon d) ++ "}" := rfl
+
+theorem renderRangeCanon_toList (days : List (Int × DayTimes)) :
+    (renderRangeCanon days).toList = '{' :: ([','].intercalate (days.map entryCanonL) ++ ['}']) := by
+  rw [renderRangeCanon_unfold]
+  simp only [String.toList_append, String.toList_intercalate, lbrace, rbrace, comma, List.map_map]
+  have e : (String.toList ∘ fun (x : Int × DayTimes) => "\"" ++ isoDate x.1 ++ "\":" ++ renderDayCanon x.2) = entryCanonL := by
+    funext x
+    simp only [Function.comp, String.toList_append, quote, quoteColon, entryCanonL, List.append_assoc,
+      List.cons_append, List.nil_append]
+  have e' : (String.toList ∘ fun (x : Int × DayTimes) =>
+      match x with | (rd, d) => "\"" ++ isoDate rd ++ "\":" ++ renderDayCanon d) = entryCanonL := by
+    rw [← e]
+  rw [e']
+  simp
+
+theorem entriesCanon_length (es : List (Int × DayTimes)) :
+    es.length ≤ ([','].intercalate (es.map entryCanonL)).length := by
+  induction es with
+  | nil => simp
+  | cons e rest ih =>
+    cases rest with
+    | nil => simp [entryCanonL]
+    | cons e2 rest2 =>
+      simp only [List.map_cons, List.intercalate_cons_cons, List.length_append, List.length_cons,
+        List.length_nil] at ih ⊢
+      have : 1 ≤ (entryCanonL e).length := by simp [entryCanonL]
+      omega
+
 end IPT.JsonLemmas
